@@ -1752,6 +1752,19 @@ def run(ctx):
         "input_distribution": {"probes_per_native": {n: sum(1 for p in probes if p.native == n) for n in NAT},
                                "arg_kinds": {k: sum(1 for p in probes for a in p.args if a.kind == k) for k in BY_KIND}},
     })
+    # BcVM tie (coordinator, round 7): the complete Gallina bytecode VM (coq/theories/BcVM.v; theorems in props/C02_bcvm.v)
+    # executes the REAL compiler's output and must agree with the real VM - outcome and per-instruction H4 trace - on a
+    # deterministic slice of the repository scripts and on the directed corner cases of vm.rs; a mismatch is a broken
+    # correspondence (impl != M) and starts the search.
+    try:
+        import bcvm_corr
+        tb = time.time()
+        bcvm_corr.bcvm_check(ctx, 60 if quick else 300)
+        log('[C02] BcVM tie in %.1fs' % (time.time() - tb))
+    except yvlib.BuildError:
+        raise
+    except Exception as e:   # the tie itself failing to run is an obligation that no longer checks, not a silent skip
+        ctx.broken.append("BcVM tie could not run: %s" % (str(e)[-300:],))
     if fns and rejected:
         ctx.notes.append("%d of %d compiled functions are rejected by the (lenient) verifier, so site_preds says nothing about them: C04's known classes" % (rejected, fns))
     # findings file for the maintainer of known_findings.json
